@@ -172,6 +172,32 @@ def run(ctx):
             break
     ctx.layers.append({"layer": "free-running threads on one aggregator, real evaluator with class groups (single-instance + plain) and a decision "
                                 "threshold, rows = sequential run", "runs": n_thr, "exhaustive": False})
+    # ---- one aggregator, submissions nested in time: an evaluation that RAISES (or is interrupted) while other submissions complete
+    #      inside its window, then the same names again -- every 4-step history over two names, compared step by step with the
+    #      sequential model of Model/AggHistory.v (no second session here: that is C17)
+    import itertools
+    steps = [[k, 0, n] for k in ("ok", "die") for n in ("s1", "s2")] + [["fail", 0, "failing", [[k, 0, n]]] for k in ("ok", "die") for n in ("s1", "s2")]
+    hcases = [{"history_case": True, "subjects": ["s1", "s2"], "history": json.loads(json.dumps(list(h))), "file": "a.tsv", "sibling": "b.tsv"}
+              for h in itertools.product(steps, repeat=3 if not full else 4) if sum(1 for st in h if st[0] == "fail") in (1, 2)]
+    for c in hcases:
+        for k, st in enumerate(c["history"]):
+            if st[0] == "fail":
+                st[2] = f"failing{k}"            # the failing subject of every such step is a name nobody else submits
+    hres = A.history_run(hcases)
+    hmod = common.engine_run(1704, [A.history_model_input(c) for c in hcases])
+    n_bad = 0
+    for case, res, mo in zip(hcases, hres, hmod):
+        ctx.count(case, True)
+        ctx.bump("nested submissions on one aggregator (failing / interrupted evaluations)")
+        dd = A.history_trace_differs(case, res, mo)
+        if dd and n_bad < 3:
+            ctx.disagree("nested submissions: files after a step differ from Model/AggHistory.v", dict(case, differs=dd))
+        probs = A.history_problems(case, res)
+        if probs and n_bad < 5:
+            n_bad += 1
+            ctx.violation("submissions nested inside a failing evaluation on one aggregator: " + "; ".join(probs[:3]), dict(case, result=res))
+    ctx.layers.append({"layer": "every history of %d steps (submit / interrupted submit / failing evaluation with a submission inside its window) "
+                                "on one aggregator, two names" % (3 if not full else 4), "cases": len(hcases), "exhaustive": True})
     # ---- extraction cross-check
     n, bad = common.coq_crosscheck("C16", triples[:60])
     ctx.crosschecked = n
@@ -185,6 +211,9 @@ def run(ctx):
 
 def replay(path):
     d = json.loads(open(path).read())
+    if d.get("history_case"):
+        from harness.props import c17
+        return c17.replay_history(d)
     if d.get("fork_rounds"):
         # real processes: not deterministic, so the recorded rounds are run several times
         rc = 0
